@@ -86,6 +86,8 @@ public:
 		return *this;
 	}
 	bitset &operator<<=(size_t pos) noexcept {
+		if (pos >= N)
+			return reset();
 		if (pos != 0) {
 			size_t wshift = pos / 64;
 			size_t offset = pos % 64;
@@ -109,6 +111,8 @@ public:
 	}
 
 	bitset &operator>>=(size_t pos) noexcept {
+		if (pos >= N)
+			return reset();
 		if (pos != 0) {
 			const size_t wshift = pos / 64;
 			const size_t offset = pos % 64;
